@@ -227,3 +227,5 @@ func parseOp(e ipfslog.Entry) ([]byte, error) {
 	}
 	return op.GetValue(), nil
 }
+
+func cryptoUnmarshalEd(b []byte) (crypto.PubKey, error) { return crypto.UnmarshalEd25519PublicKey(b) }
